@@ -6,8 +6,7 @@ from sa.astq import ev_setattr, ev_hook, ev_callattr
 from sa.idioms import status_test, guarded, is_discarded, call_consumed
 from sa.project import dotted
 
-EXPLANATION = (
-    "Static ordering/guard facts the stop guarantee rests on, decided on the "
+EXPLANATION = (    "Static ordering/guard facts the stop guarantee rests on, decided on the "
     "CFG and call graph of the current tree: R1 Watcher._stop passes "
     "status=stopping -> before_stop -> yielded kill_processes -> reap_processes "
     "-> status=stopped on every normal path; R2 kill_process escalation "
@@ -16,7 +15,9 @@ EXPLANATION = (
     "after kill+reap; R5 every call path from a non-start entry point to the "
     "Process construction passes an is_stopped guard; R6 arbiter fan-out "
     "(_stop_watchers over all watchers, rm_watcher stops unless nostop, "
-    "Arbiter.stop order, manage_watchers returns when stopping). Decides these "
+    "Arbiter.stop order, manage_watchers returns when stopping)."
+    "R5 treats Watcher._start as a target too: a non-start entry point may reach it only behind a not-stopped guard. "
+    "Decides these "
     "necessary conditions, not that a SIGKILLed process dies and is reaped at "
     "every kernel boundary.")
 ASSUMPTIONS = ["posix platform (IS_WINDOWS branches pruned)",
